@@ -240,7 +240,7 @@ class Spec(PropSpec):
         n = 220 if quick else 3000
         if ctx.escalate:
             n *= 2
-        perms = F.exhaustive_perms(4 if quick else 6)
+        perms = F.exhaustive_perms(4) if quick else F.exhaustive_perms(6, caps=(1, 2, 3, 4, 5))
         if quick and len(perms) > 260:
             perms = ctx.rng.sample(perms, 260)
         cases = list(perms)
